@@ -527,7 +527,7 @@ def run_scenario(sc, tier, baseline_cache=None, own_bases=True):
             root = build_tree(tree)
         steps = sc['steps']
         last_file_op = max([i for i, s in enumerate(steps) if s['op'] in ('write', 'utime', 'delete')] or [-1])
-        if tree is not None and tree['mode'] == 'copy':
+        if tree is not None and tree['mode'] == 'copy' and not sc.get('copy_writes'):
             assert all(s['op'] != 'write' and s['op'] != 'delete' for s in steps)
             last_file_op = -1
         hist = run_child(child_steps(steps), root, sc['hashseed'], timeout)
@@ -601,6 +601,8 @@ class Judge:
         """O2 on a successful dumped load"""
         ctx = self.ctx
         s = sc['steps'][i]
+        if sc.get('copy_writes'):
+            return      # a rewritten copy of the real library: judged by the differential only
         lib = self.lib_for(sc, i, s.get('username') or 'master')
         if lib is None or rec.get('outcome') != 'ok' or 'dump' not in rec:
             return
@@ -1104,7 +1106,7 @@ def shards(tier, seed):
         rng.shuffle(rl)
         out = [{'kind': 'syn', 'which': 'cycles', 'par': 3}, {'kind': 'syn', 'which': 'files', 'par': 3},
                {'kind': 'syn', 'which': 'faults', 'part': 0, 'par': 3}, {'kind': 'syn', 'which': 'faults', 'part': 1, 'par': 3},
-               {'kind': 'syn', 'which': 'random', 'n': 6, 'par': 3}]
+               {'kind': 'syn', 'which': 'random', 'n': 6, 'par': 3}, {'kind': 'syn', 'which': 'copywrites', 'par': 3}]
         openers_small = [['interrupt', 'load'], ['fail', 'import:imperative.imp'], ['metadata', 'fresh'],
                          ['interrupt', 'import:data.proplogic'], ['load', 'use'], ['import:prover.auto.auto', 'fail']]
         for i in range(5):
@@ -1123,7 +1125,8 @@ def shards(tier, seed):
                         'par': 3, 'maxlen': 3})
         return out
     out = [{'kind': 'syn', 'which': 'cycles', 'par': 1}, {'kind': 'syn', 'which': 'files', 'par': 1},
-           {'kind': 'syn', 'which': 'faults', 'part': 0, 'par': 1}, {'kind': 'syn', 'which': 'faults', 'part': 1, 'par': 1}]
+           {'kind': 'syn', 'which': 'faults', 'part': 0, 'par': 1}, {'kind': 'syn', 'which': 'faults', 'part': 1, 'par': 1},
+           {'kind': 'syn', 'which': 'copywrites', 'par': 3}]
     out += [{'kind': 'syn', 'which': 'random', 'n': 40, 'par': 1, 'i': i} for i in range(8)]
     names = small + real
     for i, n in enumerate(names):
@@ -1197,6 +1200,22 @@ def run_hist_shard(ctx, spec, tier):
     finish(ctx)
 
 
+def scen_copy_writes():
+    """a copy of the REAL library in which a theory file is rewritten between two loads of it: the theories whose
+    loading imports a support module (real, set, ...) go through their own branch of the loader"""
+    out = []
+    for tname in ('real', 'set', 'nat'):
+        try:
+            d = json.loads(repo_text(tname))
+        except Exception:
+            continue
+        d2 = dict(d, content=list(d['content']) + [{'ty': 'thm.ax', 'name': 'vf_added_axiom', 'vars': {}, 'prop': 'true --> true'}])
+        out.append({'label': 'copy-rewrite-own-' + tname, 'tree': {'mode': 'copy'}, 'copy_writes': True, 'steps': [
+            S_load(tname), {'op': 'write', 'path': 'library/%s.json' % tname, 'text': json.dumps(d2), 'delta': 100, 'corrupt': False},
+            S_load(tname, cmp=True, mech='changed-file-not-reread:own-file:real-library-theory', filechange=True)]})
+    return out
+
+
 def run_syn_shard(ctx, spec, tier):
     rng = ctx.rng
     which = spec['which']
@@ -1204,6 +1223,8 @@ def run_syn_shard(ctx, spec, tier):
         scs = scen_cycles()
     elif which == 'files':
         scs = scen_files()
+    elif which == 'copywrites':
+        scs = scen_copy_writes()
     elif which == 'faults':
         scs = scen_faults()
         scs = [sc for sc in scs if (sc['label'].startswith('corrupt') or sc['label'].startswith('user')) == bool(spec.get('part'))]
